@@ -123,10 +123,19 @@ func (s *JavaAPIListener) EnterAnnotation(ctx *parser.AnnotationContext) {
 			}
 			if pair.Identifier().GetText() == "value" {
 				text := pair.ElementValue().GetText()
-				currentRestAPI.Uri = baseApiUrl + text[1:len(text)-1]
+				currentRestAPI.Uri = baseApiUrl + removeQuotes(text)
 			}
 		}
 	}
+}
+
+// removeQuotes drops the first and the last character of an element value (the quotes of a string
+// literal); a value of fewer than two characters, such as a one-letter constant, is kept as it is
+func removeQuotes(text string) string {
+	if len(text) < 2 {
+		return text
+	}
+	return text[1 : len(text)-1]
 }
 
 func buildBaseApiUrlString(annotationName string, ctx *parser.AnnotationContext) {
@@ -138,12 +147,12 @@ func buildBaseApiUrlString(annotationName string, ctx *parser.AnnotationContext)
 				pair := valuePair.(*parser.ElementValuePairContext)
 				if pair.Identifier().GetText() == "value" {
 					text := pair.ElementValue().GetText()
-					baseApiUrl = text[1 : len(text)-1]
+					baseApiUrl = removeQuotes(text)
 				}
 			}
 		} else if ctx.ElementValue() != nil {
 			text := ctx.ElementValue().GetText()
-			baseApiUrl = text[1 : len(text)-1]
+			baseApiUrl = removeQuotes(text)
 		} else {
 			baseApiUrl = "/"
 		}
